@@ -1,7 +1,7 @@
 #!/bin/bash
 # usage: scripts/process_seeded.sh <ID> [base]   -> confirms and tries every /tmp/wt-<ID>/SEEDED/<k>
 id="$1"; base="${2:-851bbb0}"
-for d in /tmp/wt-$id/SEEDED/[0-9]*; do
+for d in ${WT_PREFIX:-/tmp/wt-}$id/SEEDED/[0-9]*; do
   [ -d "$d" ] || continue
   echo "=== $d"
   /verif/scripts/confirm_seeded.sh "$d" "$base" 2>&1 | tail -5
